@@ -21,6 +21,13 @@ def main(argv):
         except ToolError as e:
             log("setup failed: %s" % e)
             return 2
+    if argv[0] == "selftest":
+        from . import selftest
+        try:
+            return selftest.main()
+        except ToolError as e:
+            log("TOOL ERROR: %s" % e)
+            return 2
     ap = argparse.ArgumentParser()
     ap.add_argument("pid")
     ap.add_argument("--tier", default=os.environ.get("VERIF_TIER", "quick"))
